@@ -44,6 +44,26 @@ fn sanitize_long(s: &str) -> String {
     s.chars().map(|c| if c.is_whitespace() || c == '=' { '_' } else { c }).take(400).collect()
 }
 
+/// Runs one path; a panic inside it is reported as that path's first difference.
+fn guard(out: &mut Out, path: &'static str, v: &str, ctx: String, f: impl FnOnce(&mut Out)) {
+    let mut local = Out::new();
+    let r = catch(AssertUnwindSafe(|| {
+        f(&mut local);
+        local
+    }));
+    match r {
+        Ok(l) => {
+            for (p, d) in l.fail {
+                out.fail.entry(p).or_insert(d);
+            }
+            if out.scan.is_none() {
+                out.scan = l.scan;
+            }
+        }
+        Err(p) => out.bad(path, v, format!("{ctx};panic:{p}")),
+    }
+}
+
 /// compares a list read through a path with the expected one
 fn cmp_list(out: &mut Out, path: &'static str, v: &str, k: usize, x: usize, got: &[usize], exp: &[usize]) {
     if got != exp {
@@ -65,77 +85,89 @@ where
     }
     // random access, its ExactSizeIterator length, outdegree
     for x in 0..n {
-        let it = g.successors(x);
-        let len = it.len();
-        let got: Vec<usize> = it.collect();
-        cmp_list(out, "ra", v, x, x, &got, &exp[x]);
-        if len != exp[x].len() {
-            out.bad("ralen", v, format!("x:{x};got:{len}"));
-        }
-        let d = g.outdegree(x);
-        if d != exp[x].len() {
-            out.bad("outdeg", v, format!("x:{x};got:{d}"));
-        }
+        guard(out, "ra", v, format!("x:{x}"), |o| {
+            let it = g.successors(x);
+            let len = it.len();
+            let got: Vec<usize> = it.collect();
+            cmp_list(o, "ra", v, x, x, &got, &exp[x]);
+            if len != exp[x].len() {
+                o.bad("ralen", v, format!("x:{x};got:{len}"));
+            }
+        });
+        guard(out, "outdeg", v, format!("x:{x}"), |o| {
+            let d = g.outdegree(x);
+            if d != exp[x].len() {
+                o.bad("outdeg", v, format!("x:{x};got:{d}"));
+            }
+        });
     }
     // sequential iteration from the start
-    {
+    guard(out, "iter", v, String::new(), |o| {
         let mut it = g.iter();
         let mut x = 0;
         while let Some((y, succ)) = it.next() {
             let got: Vec<usize> = succ.into_iter().collect();
             if y != x || x >= n {
-                out.bad("iter", v, format!("x:{x};node:{y}"));
+                o.bad("iter", v, format!("x:{x};node:{y}"));
                 break;
             }
-            cmp_list(out, "iter", v, 0, x, &got, &exp[x]);
+            cmp_list(o, "iter", v, 0, x, &got, &exp[x]);
             x += 1;
         }
         if x != n {
-            out.bad("iter", v, format!("count:{x}"));
+            o.bad("iter", v, format!("count:{x}"));
         }
-    }
+    });
     // sequential iteration from every (sampled) node, by the lender and by next_successors
     for &k in ks {
-        let mut it = g.iter_from(k);
-        let mut x = k;
-        while let Some((y, succ)) = it.next() {
-            let got: Vec<usize> = succ.into_iter().collect();
-            if y != x || x >= n {
-                out.bad("iter_from", v, format!("k:{k};x:{x};node:{y}"));
-                break;
-            }
-            cmp_list(out, "iter_from", v, k, x, &got, &exp[x]);
-            x += 1;
-        }
-        if x != n {
-            out.bad("iter_from", v, format!("k:{k};count:{x}"));
-        }
-        let mut it = g.iter_from(k);
-        for x in k..n {
-            match it.next_successors() {
-                Ok(got) => cmp_list(out, "next_from", v, k, x, got, &exp[x]),
-                Err(e) => {
-                    out.bad("next_from", v, format!("k:{k};x:{x};err:{e}"));
+        guard(out, "iter_from", v, format!("k:{k}"), |o| {
+            let mut it = g.iter_from(k);
+            let mut x = k;
+            while let Some((y, succ)) = it.next() {
+                let got: Vec<usize> = succ.into_iter().collect();
+                if y != x || x >= n {
+                    o.bad("iter_from", v, format!("k:{k};x:{x};node:{y}"));
                     break;
                 }
+                cmp_list(o, "iter_from", v, k, x, &got, &exp[x]);
+                x += 1;
             }
-        }
+            if x != n {
+                o.bad("iter_from", v, format!("k:{k};count:{x}"));
+            }
+        });
+        guard(out, "next_from", v, format!("k:{k}"), |o| {
+            let mut it = g.iter_from(k);
+            for x in k..n {
+                match it.next_successors() {
+                    Ok(got) => cmp_list(o, "next_from", v, k, x, got, &exp[x]),
+                    Err(e) => {
+                        o.bad("next_from", v, format!("k:{k};x:{x};err:{e}"));
+                        break;
+                    }
+                }
+            }
+        });
     }
     // degrees-and-offsets scan from the start
-    let scan: Vec<(u64, usize)> = g.offset_deg_iter().collect();
-    check_scan(out, "offdeg", v, 0, &scan, exp, ef);
-    if out.scan.is_none() {
-        out.scan = Some(scan);
-    }
+    guard(out, "offdeg", v, String::new(), |o| {
+        let scan: Vec<(u64, usize)> = g.offset_deg_iter().collect();
+        check_scan(o, "offdeg", v, 0, &scan, exp, ef);
+        o.scan = Some(scan);
+    });
     // ... and from every (sampled) node
     for &k in ks {
-        let scan: Vec<(u64, usize)> = g.offset_deg_iter_from(k).collect();
-        check_scan(out, "offdeg_from", v, k, &scan, exp, ef);
+        guard(out, "offdeg_from", v, format!("k:{k}"), |o| {
+            let scan: Vec<(u64, usize)> = g.offset_deg_iter_from(k).collect();
+            check_scan(o, "offdeg_from", v, k, &scan, exp, ef);
+        });
     }
     // the library's own comparator
-    if let Err(e) = labels::check_impl(g) {
-        out.bad("check_impl", v, format!("{e}"));
-    }
+    guard(out, "check_impl", v, String::new(), |o| {
+        if let Err(e) = labels::check_impl(g) {
+            o.bad("check_impl", v, format!("{e}"));
+        }
+    });
 }
 
 fn check_scan(out: &mut Out, path: &'static str, v: &str, k: usize, scan: &[(u64, usize)], exp: &Graph, ef: &[u64]) {
@@ -164,49 +196,58 @@ where
         out.bad("seq_iter", v, format!("num_nodes:{}", s.num_nodes()));
         return;
     }
-    let mut it = s.iter();
-    let mut x = 0;
-    while let Some((y, succ)) = it.next() {
-        let got: Vec<usize> = succ.into_iter().collect();
-        if y != x || x >= n {
-            out.bad("seq_iter", v, format!("x:{x};node:{y}"));
-            break;
-        }
-        cmp_list(out, "seq_iter", v, 0, x, &got, &exp[x]);
-        x += 1;
-    }
-    if x != n {
-        out.bad("seq_iter", v, format!("count:{x}"));
-    }
-    for &k in ks {
-        let mut it = s.iter_from(k);
-        let mut x = k;
+    guard(out, "seq_iter", v, String::new(), |o| {
+        let mut it = s.iter();
+        let mut x = 0;
         while let Some((y, succ)) = it.next() {
             let got: Vec<usize> = succ.into_iter().collect();
             if y != x || x >= n {
-                out.bad("seq_iter_from", v, format!("k:{k};x:{x};node:{y}"));
+                o.bad("seq_iter", v, format!("x:{x};node:{y}"));
                 break;
             }
-            cmp_list(out, "seq_iter_from", v, k, x, &got, &exp[x]);
+            cmp_list(o, "seq_iter", v, 0, x, &got, &exp[x]);
             x += 1;
         }
         if x != n {
-            out.bad("seq_iter_from", v, format!("k:{k};count:{x}"));
+            o.bad("seq_iter", v, format!("count:{x}"));
         }
+    });
+    for &k in ks {
+        guard(out, "seq_iter_from", v, format!("k:{k}"), |o| {
+            let mut it = s.iter_from(k);
+            let mut x = k;
+            while let Some((y, succ)) = it.next() {
+                let got: Vec<usize> = succ.into_iter().collect();
+                if y != x || x >= n {
+                    o.bad("seq_iter_from", v, format!("k:{k};x:{x};node:{y}"));
+                    break;
+                }
+                cmp_list(o, "seq_iter_from", v, k, x, &got, &exp[x]);
+                x += 1;
+            }
+            if x != n {
+                o.bad("seq_iter_from", v, format!("k:{k};count:{x}"));
+            }
+        });
     }
     // slices pulled one by one from the sequential decoder
-    let mut it = s.iter();
-    for x in 0..n {
-        match it.next_successors() {
-            Ok(got) => cmp_list(out, "seq_next", v, 0, x, got, &exp[x]),
-            Err(e) => {
-                out.bad("seq_next", v, format!("x:{x};err:{e}"));
-                break;
+    guard(out, "seq_next", v, String::new(), |o| {
+        let mut it = s.iter();
+        for x in 0..n {
+            match it.next_successors() {
+                Ok(got) => cmp_list(o, "seq_next", v, 0, x, got, &exp[x]),
+                Err(e) => {
+                    o.bad("seq_next", v, format!("x:{x};err:{e}"));
+                    break;
+                }
             }
         }
-    }
-    let scan: Vec<(u64, usize)> = s.offset_deg_iter().collect();
-    check_scan(out, "offdeg", v, 0, &scan, exp, ef);
+    });
+    guard(out, "offdeg", v, String::new(), |o| {
+        let scan: Vec<(u64, usize)> = s.offset_deg_iter().collect();
+        check_scan(o, "offdeg", v, 0, &scan, exp, ef);
+        o.scan = Some(scan);
+    });
 }
 
 /// One variant: load both graph flavours with the given type parameters and read them.
@@ -334,16 +375,16 @@ pub fn run(seed: u64, count: usize, max_n: usize, mode: &str, out: &mut impl Wri
         let (g, c) = if mode == "chain" {
             // long reference chains: near-duplicates of the previous list
             let mut g: Graph = Vec::new();
-            let mut cur: Vec<usize> = (0..rng.range(4, 12)).map(|_| rng.below(4 * n + 8)).collect();
+            let mut cur: Vec<usize> = (0..rng.range(4, 12)).map(|_| rng.below(n)).collect();
             for _ in 0..n {
                 cur.sort_unstable();
                 cur.dedup();
                 g.push(cur.clone());
                 if rng.chance(1, 12) {
-                    cur = (0..rng.range(0, 12)).map(|_| rng.below(4 * n + 8)).collect();
+                    cur = (0..rng.range(0, 12)).map(|_| rng.below(n)).collect();
                 } else if rng.chance(1, 2) {
                     let k = rng.below(cur.len().max(1));
-                    if !cur.is_empty() { cur[k] = rng.below(4 * n + 8); }
+                    if !cur.is_empty() { cur[k] = rng.below(n); }
                 }
             }
             let mut c = Conf::random(&mut rng, n);
